@@ -182,6 +182,8 @@ def main(argv=None):
     ap.add_argument("--no-evidence", action="store_true")
     ap.add_argument("--workers", type=int, default=int(os.environ.get("VERIF_WORKERS", "0")))
     ap.add_argument("--wall", type=float, default=None, help="wall-clock cap for the batch, s")
+    ap.add_argument("--digests", default=None,
+                    help="write one 'mode/index plan-independent event-log digest' line per run")
     args = ap.parse_args(argv)
 
     cid = args.check.upper()
@@ -263,6 +265,11 @@ def main(argv=None):
         log("HARNESS-ERROR no run completed")
         return EXIT_HARNESS
     batch_wall = time.time() - t_start
+    if args.digests:
+        with open(args.digests, "w") as f:
+            for r in sorted(results, key=lambda r: (r["mode"], r["index"])):
+                f.write(f"{r['mode']}/{r['index']} {r.get('digest')} "
+                        f"{(r.get('violation') or {}).get('class')}\n")
 
     # -- violations ------------------------------------------------------------
     known = load_known(cid)
